@@ -452,7 +452,7 @@ pub fn cmap_case(ch: &mut Chooser, t: &mut Tally) {
 pub fn run(tier: Tier, _seed: u64, tally: &mut Tally) -> CheckMeta {
     let maxg = 4;
     MAX_GROUPS.store(maxg, Ordering::Relaxed);
-    explore("c19.warray", Limits::new(if tier.thorough() { 4 } else { 1 }).wall(if tier.thorough() { 2400 } else { 100 }), tally, warray_case);
+    explore("c19.warray", Limits::new(if tier.thorough() { 4 } else { 1 }).wall(if tier.thorough() { 2400 } else { 600 }), tally, warray_case);
     explore("c19.simple", Limits::new(0), tally, simple_case);
     writer_roundtrip(tally);
     explore("c19.cmap", Limits::new(if tier.thorough() { 3 } else { 2 }), tally, cmap_case);
